@@ -145,6 +145,18 @@ def check(prog, run):
         run.violation("add-contract", "Enum.add new name", "after add('d', 4): %r" % ((p.value[1:3] if p.returned else p.raised.describe()),),
                       file, fadd.node.lineno, fadd.qualname)
 
+    def t_add_same_value():
+        e = fresh()
+        I.call_function(fadd, [e, "d", 1], {}, None, _F())       # a new name for a value another name already carries
+        return I.get_attr(e, "keys", None, _F()), I.get_attr(e, "d", None, _F()), I.get_item(e, 1, None, _F())
+    p = ev(t_add_same_value, "add new name, existing value")
+    if p.returned and p.value == (["a", "b", "c", "d"], 1, "a"):
+        run.ok("add-contract", "Enum.add new name with a value that is already used")
+    else:
+        run.violation("add-contract", "Enum.add new name with a value that is already used",
+                      "add('d', 1) while 'a' is 1: %r (a dictionary accepts it; reverse lookup of 1 stays 'a')"
+                      % ((p.value if p.returned else p.raised.describe()),), file, fadd.node.lineno, fadd.qualname)
+
     def t_add_dup():
         e = fresh()
         try:
